@@ -104,8 +104,8 @@ func qctx() (context.Context, context.CancelFunc) {
 
 type baseEnv struct{}
 
-func (baseEnv) passw(*ctx, string, *holder, int) ([]any, bool) { return nil, false }
-func (baseEnv) close()                                         {}
+func (baseEnv) passw(*ctx, string, *holder, int) ([]any, string, bool) { return nil, "", false }
+func (baseEnv) close()                                                 {}
 
 // guard turns a panic of the component (e.g. after a reader corrupted shared state) into a violation.
 func guard(x *ctx, port string, f func()) (ok bool) {
@@ -460,10 +460,10 @@ func (e *dutydbEnv) pass(x *ctx, port string, src *holder, dst int) (roots []any
 
 // passw: validatorapi.Proposal queries the store through its registered function and then writes
 // ConsensusValue / ExecutionValue into the answer before returning it to the validator client.
-func (e *dutydbEnv) passw(x *ctx, port string, src *holder, dst int) ([]any, bool) {
+func (e *dutydbEnv) passw(x *ctx, port string, src *holder, dst int) ([]any, string, bool) {
 	v, isProp := e.last.(core.VersionedProposal)
 	if port != "dutyDB.AwaitProposal" || !isProp || !src.kept {
-		return nil, false
+		return nil, "", false
 	}
 	c, cancel := qctx()
 	defer cancel()
@@ -475,7 +475,7 @@ func (e *dutydbEnv) passw(x *ctx, port string, src *holder, dst int) ([]any, boo
 		}
 		out = r.Data
 	})
-	return []any{out}, ok
+	return []any{out}, "vapi.Proposal", ok
 }
 
 func (e *dutydbEnv) readPort() string {
